@@ -35,6 +35,7 @@ type Case struct {
 	Introspection bool           `json:"introspection,omitempty"`
 	MaxPayloads   int            `json:"maxPayloads,omitempty"` // >0: call the response function only this many times (1 = single-response transports)
 	LeakCheck     bool           `json:"leakCheck,omitempty"` // after the case: cancel, wait, and report surviving goroutines
+	Around        bool           `json:"around,omitempty"`     // install the universal field interceptor (universal.Around)
 	Exts          []ExtSpec      `json:"exts,omitempty"`       // C16: handler extensions to register, in this order (c16ext.go)
 	Extensions    map[string]any `json:"extensions,omitempty"` // the request's `extensions` (RawParams.Extensions)
 }
@@ -72,6 +73,7 @@ type Result struct {
 	Fault     string          `json:"fault,omitempty"`
 	FaultKind string          `json:"faultKind,omitempty"`
 	Event     int             `json:"event,omitempty"` // subscriptions: which event this (split) result is
+	Around    bool            `json:"around,omitempty"`
 }
 
 // SplitEvents turns the result of a subscription into one result per delivered event: the event's
@@ -150,6 +152,10 @@ func RunCase(es graphql.ExecutableSchema, c Case) Result {
 	})
 	if c.Introspection {
 		ex.Use(introspectionOn{})
+	}
+	if c.Around {
+		ex.AroundFields(Around)
+		res.Around = true
 	}
 	if err := useExts(ex, c.Exts); err != nil {
 		return Result{ID: c.ID, Query: c.Query, Payloads: []Payload{}, Crash: "bad exts: " + err.Error()}
@@ -487,6 +493,7 @@ func Main(newES func(bind func(stub any, directives any, complexity any)) graphq
 		g := NewGen(es.Schema(), *seed, fp)
 		for i := 0; i < *n; i++ {
 			c := g.Case(i)
+			c.Around = i%2 == 0 // every other operation runs under a field interceptor: its calls are fault points too
 			base := RunCase(es, c)
 			pj, _ := json.Marshal(c.Plan)
 			base.Plan = pj
